@@ -1,6 +1,7 @@
 package main
 
 import (
+	"fmt"
 	"reflect"
 
 	"github.com/TheManticoreProject/Manticore/network/smb/smb_v10/dialects"
@@ -30,7 +31,7 @@ type codec interface {
 // instance and of the reflect-filled instances (2 and 5).
 func codecEP(name string, mk func() codec, extra ...[]byte) *EP {
 	var seeds [][]byte
-	for _, n := range []int{0, 2, 5} {
+	for _, n := range fillValues() {
 		o := mk()
 		fillPtr(o, n)
 		seeds = append(seeds, marshalSeed(o))
@@ -74,7 +75,7 @@ func regSMB() {
 			used[name] = true
 			attr[resp][code] = name
 			cs := cmdSeed{name: name}
-			for _, n := range []int{0, 2, 5} {
+			for _, n := range fillValues() {
 				cmd, _ := mk()
 				fillPtr(cmd, n)
 				m := message.NewMessage()
@@ -143,9 +144,11 @@ func regSMB() {
 			}
 		}
 		add(&EP{Name: msgEnvelope, Call: callMsg, Attr: attrFn, Seeds: seeds[:1], SmallFull: [2]int{2, 2}, Small16: [2]int{3, 4}})
-		// all 512 (code, direction) headers with empty blocks: one generator-free EP (seeds only would be
-		// mutated 512 times over; keep them as plain seeds of a unit without small scope)
-		add(&EP{Name: "smb.Message.Unmarshal[all-codes]", Call: callMsg, Attr: attrFn, Seeds: seeds, NoSmall: true, Shards: 8})
+		// all 512 (code, direction) headers with empty blocks (also the codes no factory knows), split into
+		// 16 registry entries of 32 seeds; every case is attributed to the command it dispatches to
+		for k := 0; k < 16; k++ {
+			add(&EP{Name: fmt.Sprintf("smb.Message.Unmarshal[all-codes %02X-%02X]", k*16, k*16+15), Call: callMsg, Attr: attrFn, Seeds: seeds[k*32 : (k+1)*32], NoSmall: true})
+		}
 	}
 
 	// ---- shared blocks
